@@ -8,7 +8,7 @@ from .. import loader
 from . import byt, tok, c05
 
 I = z3.Int
-BOUNDS = {"quick": dict(K=3), "thorough": dict(K=5)}
+BOUNDS = {"quick": dict(K=3), "thorough": dict(K=4)}     # K=5: the recorder harnesses alone take 7-9 min each on 16 cores
 
 
 def mkval():
